@@ -156,6 +156,7 @@ var c18Labels = func() []string {
 	}
 	return l
 }()
+
 // merge source sizes: 27, 54 and 107 leave the source MID-GROWTH (old buckets not yet evacuated:
 // growth starts at the 27th / 53rd / 105th insert and needs several more inserts to complete)
 var c18MergeSizes = []int{0, 1, 9, 27, 54, 70, 107}
